@@ -31,7 +31,10 @@ let zeq a b = (Z.compare a b) = Eq
 
 let parse_err (s : string) : an_err =
   let v = int_of_string s in
-  if v = 0 then AnNil else AnE (z_of_int v)
+  (* codes >= 101: a handler returns, as its OWN error, an error whose identity the pool uses itself (cmd/ftants herr):
+     the discard error of another pool, context.DeadlineExceeded, context.Canceled; 104 = a wrapped discard error *)
+  if v = 0 then AnNil else if v = 101 then AnDiscard else if v = 102 then AnDeadline else if v = 103 then AnCanceled
+  else AnE (z_of_int v)
 
 let parse_task (tok : string) : an_opts =
   match String.split_on_char '|' tok with
